@@ -225,6 +225,42 @@ def run_job(job):
             skipped.append([f"{job['prefix']}:s{ci}", 'id', f'encode: {e}'])
         finally:
             signal.alarm(0)
+    # ---- chains: multivectors built by name (symbols x0, x1, ... / x1, x2, ...: the names sympy's cse would use for its own
+    #      temporaries), then q = p + p*p + (p*p)*B: bare symbols beside compound coefficients with shared subexpressions
+    for ci in range(job.get('n_chain', 0)):
+        eid = f"{job['prefix']}:c{ci}"
+        try:
+            signal.alarm(job.get('budget', 60))
+            if alg.d < 2:
+                break
+            p_ = alg.vector(name='x')
+            B_ = alg.blades[[n_ for n_ in alg.canon2bin if len(n_) == 3][ci % max(1, alg.d - 1)]]
+            s_ = p_ * p_
+            q_ = p_ + s_ + s_ * B_ if ci % 2 == 0 else p_ + (s_ * B_) * p_ + s_
+            sid = {v.name: 1000 + int(k) + 1 for k, v in zip(p_.keys(), p_.values())}
+            sig = {nm: rng.choice([2, -1, 3, 5, -2, 7]) for nm in sid}
+            enc = {'keys': [int(k) for k in q_.keys()], 'coefs': [sympy_to_G(v, sid).to_json('rat') for v in q_.values()]}
+            free = sorted(q_.free_symbols, key=lambda z_: z_.name)
+            evals = []
+            for how, f in (('call_positional', lambda: q_(*[sig[z_.name] for z_ in free])),
+                           ('call_keyword', lambda: q_(**{z_.name: sig[z_.name] for z_ in free})),
+                           ('subs', lambda: q_.map(lambda v: v.subs({z_: sig[z_.name] for z_ in free}) if isinstance(v, sympy.Basic) else v))):
+                try:
+                    r = f()
+                    evals.append({'how': how, 'raised': '', 'res': {'keys': [int(k) for k in r.keys()],
+                                                                      'coefs': [K.coef_to_G(int(v) if isinstance(v, sympy.Basic) else v).to_json('rat') for v in r.values()]}})
+                except (K.EncodeError, TypeError):
+                    raise K.EncodeError('not a number')
+                except Exception as e:   # noqa: BLE001
+                    evals.append({'how': how, 'raised': type(e).__name__, 'res': {'keys': [], 'coefs': []}})
+            events.append({'id': eid, 'kind': 'subst', 'op': 'id', 'ring': 'rat', 'args': [enc], 'params': [], 'raised': '', 'res': enc,
+                           'witness': {'keys': [], 'coefs': []}, 'sigma': [[sid[n_], [int(v_), 1]] for n_, v_ in sorted(sig.items())], 'names': dict(sid), 'evals': evals})
+        except _Timeout:
+            skipped.append([eid, 'id', 'time budget'])
+        except (K.EncodeError, ValueError) as e:
+            skipped.append([eid, 'id', f'encode: {e}'])
+        finally:
+            signal.alarm(0)
     # ---- operators with irrational symbolic results: every evaluation route against the numeric operator ----------
     import pyref
     d_, sgn = pyref.sign_table(u)
